@@ -84,9 +84,85 @@ def mkfile(d, case, recs, name, r, kind=None, provenance=None):
     return vcfgen.make_indexed(d, name, text, kind=kind or r.choice(["tbi", "csi"]), lines_per_block=r.choice([1, 2, 3, 50]))
 
 
+def many_partitions(ctx):
+    """More than ten explode partitions (two-digit partition numbers), partitions of unequal size on
+    different contigs, and a dozen split files: one file with 12..16 contigs of 2..9 records each."""
+    from bio2zarr import vcf2zarr
+
+    r = ctx.rnd
+    for i in range(ctx.n(2, 12)):
+        d = os.path.join(ctx.work, f"c03_many_{i}")
+        os.makedirs(d)
+        P = lambda x: os.path.join(d, x)  # noqa: E731
+        try:
+            nc = r.randint(12, 16)
+            hdr = [f"##contig=<ID=c{j},length=10000000>" for j in range(nc)]
+            hdr += ['##INFO=<ID=AC,Number=A,Type=Integer,Description="x">', '##INFO=<ID=DP,Number=1,Type=Integer,Description="x">',
+                    '##FILTER=<ID=PASS,Description="All filters passed">', '##FORMAT=<ID=GT,Number=1,Type=String,Description="Genotype">']
+            per = {}
+            for j in range(nc):
+                pos = r.randint(1, 5000)
+                per[j] = []
+                for _ in range(r.randint(2, 9)):
+                    alts = r.choice(["T", "T,G", "T,G,C"])
+                    ac = ",".join(str(r.randint(1, 90)) for _ in alts.split(","))
+                    per[j].append(f"c{j}\t{pos}\tr{j}_{pos}\tA\t{alts}\t.\tPASS\tAC={ac};DP={r.randint(1, 500)}\tGT\t{r.choice(['0/1', '1|1', './.', '0|2'])}\t{r.choice(['0/0', '1/1'])}")
+                    pos += r.randint(1, 40000)
+            recs = [x for j in range(nc) for x in per[j]]
+            n = len(recs)
+            text = vcfgen.vcf_text(hdr, recs, samples=["s0", "s1"])
+            full = vcfgen.make_indexed(d, "full", text, kind=r.choice(["tbi", "csi"]), lines_per_block=1)
+            vcs = r.choice([1, 3, 7])
+            doc0 = dict(kind="many-partitions", contigs=nc, records=n, variants_chunk_size=vcs, wide_seed=i)
+            vcf2zarr.explode(P("ref.icf"), [full], worker_processes=0)
+            vcf2zarr.encode(P("ref.icf"), P("ref.vcz"), variants_chunk_size=vcs, worker_processes=0)
+            ref = snapshot(P("ref.vcz"))
+            dummy = dict(recs=[])
+            try:
+                np_ = pipeline.dexplode(P("d.icf"), [full], target_num_partitions=40, column_chunk_size=r.choice([1e-4, 16]), order="shuffle", rnd=r)
+            except Exception as e:  # noqa: BLE001
+                ctx.case(doc0, nontrivial=True)
+                ctx.fail(doc0, dict(error=f"{type(e).__name__}: {e}"[:200]), "exploding a well-formed file into many partitions failed")
+                continue
+            for ep in (1, r.choice([2, 3, 5])):
+                shutil.rmtree(P("d.vcz"), ignore_errors=True)
+                doc = dict(doc0, explode_partitions=np_, encode_partitions=ep)
+                ctx.case(doc, nontrivial=True)
+                ctx.count(f"explode-partitions:{'11+' if np_ > 10 else np_}")
+                try:
+                    pipeline.dencode(P("d.icf"), P("d.vcz"), ep, order="shuffle", rnd=r, variants_chunk_size=vcs)
+                except Exception as e:  # noqa: BLE001
+                    ctx.fail(doc, dict(error=f"{type(e).__name__}: {e}"[:200]), "encoding a store exploded into many partitions failed")
+                    continue
+                bad = diff_snap(ref, snapshot(P("d.vcz")), dummy)
+                if bad:
+                    ctx.fail(doc, dict(arrays=bad[:5]), f"store depends on the configuration (many explode partitions): {bad[:4]} differ from the single-partition reference")
+                ctx.traces_validated += 1
+            # the same records as one file per contig, in shuffled order
+            files = []
+            for j in range(nc):
+                files.append(vcfgen.make_indexed(d, f"piece{j}", vcfgen.vcf_text(hdr, per[j], samples=["s0", "s1"]), kind="tbi", lines_per_block=r.choice([1, 50])))
+            r.shuffle(files)
+            doc = dict(doc0, kind="many-split-files", files=nc)
+            ctx.case(doc, nontrivial=True)
+            ctx.count("config:many-split-files")
+            try:
+                vcf2zarr.explode(P("s.icf"), files, worker_processes=0)
+                vcf2zarr.encode(P("s.icf"), P("s.vcz"), variants_chunk_size=vcs, worker_processes=r.choice([0, 2]))
+                bad = diff_snap(ref, snapshot(P("s.vcz")), dummy, ignore_attrs=True)
+                if bad:
+                    ctx.fail(doc, dict(arrays=bad[:5]), f"store depends on the configuration (one file per contig, {nc} files): {bad[:4]} differ from the unsplit reference")
+            except Exception as e:  # noqa: BLE001
+                ctx.fail(doc, dict(error=f"{type(e).__name__}: {e}"[:200]), "conversion of the split files failed")
+            ctx.traces_validated += 1
+        finally:
+            shutil.rmtree(d, ignore_errors=True)
+
+
 def run(ctx):
     from bio2zarr import vcf2zarr
 
+    many_partitions(ctx)
     r = ctx.rnd
     for i in range(ctx.n(10, 300)):
         seed = ctx.seed * 7 + 40000 + i
